@@ -113,12 +113,20 @@ func (db *SingleBucketBackend) ListBucket(bucket string, prefix *gofakes3.Prefix
 }
 
 func (db *SingleBucketBackend) getBucketWithFilePrefixLocked(bucket string, prefixPath, prefixPart string) (*gofakes3.ObjectList, error) {
+	response := gofakes3.NewObjectList()
+
+	// A prefix that does not lead to a directory matches no keys; that is an
+	// empty listing, not an error:
+	if isDir, err := afero.DirExists(db.fs, filepath.FromSlash(prefixPath)); err != nil {
+		return nil, err
+	} else if !isDir {
+		return response, nil
+	}
+
 	dirEntries, err := afero.ReadDir(db.fs, filepath.FromSlash(prefixPath))
 	if err != nil {
 		return nil, err
 	}
-
-	response := gofakes3.NewObjectList()
 
 	for _, entry := range dirEntries {
 		object := entry.Name()
